@@ -68,17 +68,24 @@ fn layer_geoms(rng: &mut Rng, lname: &str, acc: &mut BTreeMap<String, Vec<XShape
                 (LefShape::Rect(None, lp(rng, a), lp(rng, b)), XShape::Rect(a, b))
             }
             1 => {
-                let pts: Vec<(i64, i64)> = (0..3 + rng.usize(5)).map(|_| xy(rng)).collect();
+                let mut pts: Vec<(i64, i64)> = (0..3 + rng.usize(5)).map(|_| xy(rng)).collect();
+                coincide(rng, &mut pts);
                 (LefShape::Polygon(None, pts.iter().map(|p| lp(rng, *p)).collect()), XShape::Poly(pts))
             }
             _ => {
                 has_path = true;
-                let pts: Vec<(i64, i64)> = (0..2 + rng.usize(4)).map(|_| xy(rng)).collect();
+                let mut pts: Vec<(i64, i64)> = (0..2 + rng.usize(4)).map(|_| xy(rng)).collect();
+                coincide(rng, &mut pts);
                 (LefShape::Path(None, pts.iter().map(|p| lp(rng, *p)).collect()), XShape::Path(pts, width))
             }
         };
-        geoms.push(LefGeometry::Shape(g));
-        acc.entry(lname.to_string()).or_default().push(x);
+        geoms.push(LefGeometry::Shape(g.clone()));
+        acc.entry(lname.to_string()).or_default().push(x.clone());
+        // the same shape written twice in a row (typical of generated / flattened abstracts): both must arrive
+        if rng.chance(1, 5) {
+            geoms.push(LefGeometry::Shape(g));
+            acc.entry(lname.to_string()).or_default().push(x);
+        }
     }
     LefLayerGeometries {
         layer_name: lname.to_string(),
@@ -87,6 +94,35 @@ fn layer_geoms(rng: &mut Rng, lname: &str, acc: &mut BTreeMap<String, Vec<XShape
         except_pg_net: None,
         spacing: if rng.chance(1, 6) { Some(LefLayerSpacing::Spacing(LefDecimal::ZERO)) } else { None },
         width: if has_path || rng.chance(1, 4) { Some(dec_of(rng, width)) } else { None },
+    }
+}
+
+/// Point lists as real abstracts have them: Manhattan (consecutive vertices share a coordinate), a doubled vertex, an explicitly closed ring, x == y
+fn coincide(rng: &mut Rng, pts: &mut Vec<(i64, i64)>) {
+    match rng.below(6) {
+        0 => {
+            for k in 1..pts.len() {
+                if k % 2 == 1 {
+                    pts[k].1 = pts[k - 1].1;
+                } else {
+                    pts[k].0 = pts[k - 1].0;
+                }
+            }
+        }
+        1 => {
+            let k = rng.usize(pts.len());
+            let c = pts[k];
+            pts.insert(k, c);
+        }
+        2 => {
+            let c = pts[0];
+            pts.push(c);
+        }
+        3 => {
+            let k = rng.usize(pts.len());
+            pts[k].1 = pts[k].0;
+        }
+        _ => {}
     }
 }
 
